@@ -203,7 +203,24 @@ def install():
     @_B('round')
     def _round(ex, v, nd=None):
         if isinstance(v, Sym):
-            raise Unsupported('round of symbolic value (use a contract)')
+            # model: the result r is a multiple of 10**-nd with |r - v| <= 0.5 * 10**-nd
+            # (ties: either neighbour - weaker than CPython's round-half-even, hence sound)
+            n = 0 if nd is None else nd
+            if not isinstance(n, int):
+                raise Unsupported('round with symbolic digits')
+            key = ('round', n, ex.ctx._key(v.e))
+            if key in ex.ctx.cache:
+                return ex.ctx.cache[key]
+            k = ex.ctx.fresh('round_k', 'int')
+            scale = 10 ** n
+            r = Sym(z3.ToReal(k.e) / scale)
+            half = z3.RealVal(1) / (2 * scale)
+            ex.ctx.assume(z3.And(r.e - to_z3_num(v, True) <= half, to_z3_num(v, True) - r.e <= half), kind='def')
+            ex.ctx.cache[key] = r if nd is not None else k
+            return ex.ctx.cache[key]
+        if isinstance(v, float) and nd is not None:
+            from decimal import Decimal
+            return float(round(Decimal(repr(v)), nd))      # A-REAL: the float denotes its decimal repr
         return round(v, nd) if nd is not None else round(v)
 
     @_B('float')
@@ -394,7 +411,10 @@ def install():
 
     @_B('decimal.Decimal')
     def _decimal(ex, v):
-        raise Unsupported('Decimal')
+        # A-REAL: Decimal(x) is the exact value of x; decimal arithmetic = real arithmetic
+        if isinstance(v, (Sym, int, float)):
+            return v
+        raise Unsupported('Decimal of %r' % type(v).__name__)
 
 
 def _unsupported(msg):
